@@ -25,7 +25,8 @@ EFF_NAMES = {
     21: "p(w(x)) := false (nested fluent in the effect target: Effect.__init__ rejects it, no skeleton uses it)", 22: "m(x) += d (bounded numeric fluent with a parameter)",
     23: "m(x) -= d",
 }
-INV_NAMES = {0: "always n <= c3", 1: "always b or p(o1)", 2: "always forall y. b or not p(y)"}
+INV_NAMES = {0: "always n <= c3", 1: "always b or p(o1)", 2: "always forall y. b or not p(y)",
+             3: "always p(o1) or not p(o2)", 4: "always b or not p(o2)"}
 TRAJ_NAMES = {0: "sometime b", 1: "at-most-once p(o1)", 2: "sometime-before b p(o1)", 3: "sometime-after p(o1) b",
               4: "always (b or not p(o2))", 5: "sometime p(o2)", 6: "at-most-once b"}
 
@@ -251,6 +252,10 @@ def _build(ctx, sk, env=None):
         elif i == 2:
             y = Variable("y", T, env)
             prob.add_state_invariant(em.Forall(em.Or(em.FluentExp(b), em.Not(em.FluentExp(p, [em.VariableExp(y)]))), y))
+        elif i == 3:
+            prob.add_state_invariant(em.Or(em.FluentExp(p, [em.ObjectExp(o1)]), em.Not(em.FluentExp(p, [em.ObjectExp(o2)]))))
+        elif i == 4:
+            prob.add_state_invariant(em.Or(em.FluentExp(b), em.Not(em.FluentExp(p, [em.ObjectExp(o2)]))))
     for i in sk.get("goal", [0]):
         prob.add_goal(cond(i, em.ObjectExp(o1)))
     for i in sk.get("traj", []):
@@ -267,8 +272,8 @@ def _build(ctx, sk, env=None):
         conds |= {sk.get("effcond", 2)}
     if (set(sk.get("second_action") or [])) & {1, 5, 9, 14, 16}:
         conds |= {sk.get("effcond2", 0)}
-    uses_b = bool(conds & {0, 1, 6, 8}) or bool(effs & {0, 1, 12, 20}) or bool({1, 2} & set(sk.get("inv", []))) or sk.get("fork_all")
-    uses_p = bool(conds & {2, 6, 7, 8, 11, 12}) or bool(effs & {6, 10, 13, 15, 20, 21}) or bool({1, 2} & set(sk.get("inv", []))) or sk.get("fork_all")
+    uses_b = bool(conds & {0, 1, 6, 8}) or bool(effs & {0, 1, 12, 20}) or bool({1, 2, 3, 4} & set(sk.get("inv", []))) or sk.get("fork_all")
+    uses_p = bool(conds & {2, 6, 7, 8, 11, 12}) or bool(effs & {6, 10, 13, 15, 20, 21}) or bool({1, 2, 3, 4} & set(sk.get("inv", []))) or sk.get("fork_all")
     prob.set_initial_value(em.FluentExp(b), em.Bool(bool(ctx.choice("b0", 2)) if uses_b else False))
     for o in objs:
         prob.set_initial_value(em.FluentExp(p, [em.ObjectExp(o)]), em.Bool(bool(ctx.choice(f"p0_{o.name}", 2)) if uses_p else False))
